@@ -249,7 +249,11 @@ XalanEXSLTFunctionPadding::execute(
     const XalanDOMString&               thePaddingString = theSize == 2 ? args[1]->str(executionContext) : m_space;
     const XalanDOMString::size_type     thePaddingStringLength = thePaddingString.length();
 
-    if (theLength == 0.0 || thePaddingStringLength == 0)
+    // A length that is NaN, less than one, or too large to be the length of
+    // a string must not be converted to size_type: the result is empty.
+    if (!(theLength >= 1.0) ||
+        theLength >= double(XalanDOMString::npos) ||
+        thePaddingStringLength == 0)
     {
         return executionContext.getXObjectFactory().createStringReference(s_emptyString);
     }
